@@ -412,3 +412,207 @@ def settle_createfull(run, answers):
             run.fail("impl-vs-model", case, {"correspondence": "Impl.create* (whole metafile bytes)",
                                              "top-level keys": keys, "info keys": ikeys})
     return rest
+
+
+# ----------------------------------------------------------------------------- trees that change
+
+def change_tree(root, before, after):
+    """Turn the materialised directory payload `before` into `after` IN PLACE (plain files only):
+    files that are gone are removed (the directories they were in stay), new files are written,
+    files whose content differs are rewritten in place (same inode).  Only the directories that
+    directly hold a changed entry are touched, so a change below the first level leaves the
+    entry list of the root directory - and with it the root's own stat - exactly as it was."""
+    old = {rel: b.token() for rel, b in before}
+    new = {rel: b.token() for rel, b in after}
+    for rel in old:
+        if rel not in new:
+            os.remove(os.path.join(root, *rel.split("/")))
+    for rel, blob in after:
+        if old.get(rel) != new[rel]:
+            path = os.path.join(root, *rel.split("/"))
+            os.makedirs(os.path.dirname(path), exist_ok=True)
+            with open(path, "wb") as fd:
+                fd.write(blob.bytes())
+    for d in getattr(after, "emptydirs", ()):
+        os.makedirs(os.path.join(root, *d.split("/")), exist_ok=True)
+
+
+def changed_tree_shapes(pl=16384):
+    """Fixed (label, before, after) pairs of directory payloads: the same path is turned into a
+    torrent, the tree changes, and it is turned into a torrent again.  Most changes happen BELOW
+    the first level (a file added / removed / grown / shrunk in a sub-directory, a new
+    sub-sub-directory); two touch the top level as well."""
+    R = Blob.rand
+    top, a, b = ("top.bin", R(21, 20001)), ("cd1/t1", R(22, B + 1)), ("cd1/t2", R(23, 2 * pl + 5))
+    deep, old = ("cd2/scans/front", R(24, B - 1)), ("cd2/scans/old", R(25, 999))
+    base = [top, a, b, deep]
+    out = [
+        ("nested-added", base, base + [("cd1/t3", R(26, 2 * pl + 1)), ("cd2/scans/back", R(27, 1))]),
+        ("nested-removed", base + [old], base),
+        ("nested-grown", base, [top, ("cd1/t1", R(22, 3 * pl + 5)), b, deep]),
+        ("nested-shrunk", base, [top, a, ("cd1/t2", R(23, 7)), deep]),
+        ("nested-new-dir", base, base + [("cd2/scans/hi-res/p1", R(28, pl)), ("cd1/extras/x", R(29, 3))]),
+        ("nested-emptied-dir", base + [old], [top, a, b]),
+        ("nested-replaced", base + [old], base + [("cd2/scans/new", R(30, 999))]),
+        ("top-added", base, base + [("zz-top2", R(31, pl + 1))]),
+        ("top-and-nested", base + [old], [a, b, deep, ("another", R(32, 5)), ("cd1/t3", R(26, pl - 1))]),
+    ]
+    return [(label, gen.FileList(x), gen.FileList(y)) for label, x, y in out]
+
+
+def earlier_version(rng, files):
+    """A random earlier state of the directory payload `files` (plain files only) from which
+    `files` is reached by changes below the first level: nested files that did not exist yet,
+    had another length, or extra nested files that are gone now.  None when the tree has no
+    plain nested file."""
+    plain = lambda b: not getattr(b, "hardlink_of", None) and not getattr(b, "symlink_of", None)  # noqa: E731
+    if not all(plain(b) for _, b in files):
+        return None
+    nested = [i for i, (rel, _) in enumerate(files) if "/" in rel]
+    if not nested:
+        return None
+    before = list(files)
+    done = 0
+    for i in rng.sample(nested, rng.randrange(1, len(nested) + 1)):
+        rel, blob = files[i]
+        how = rng.choice(["absent", "other-length", "other-bytes", "sibling-gone"])
+        if how == "absent" and sum(1 for x in before if x is not None) > 1:
+            before[i] = None
+        elif how == "other-length":
+            before[i] = (rel, Blob.rand(rng.randrange(50, 99), rng.choice([0, 1, len(blob) // 2, len(blob) + 1, len(blob) + B])))
+        elif how == "other-bytes" and len(blob):
+            before[i] = (rel, Blob.rand(rng.randrange(50, 99), len(blob)))
+        else:
+            extra = rel.rsplit("/", 1)[0] + "/" + rng.choice(["gone-since", "~tmp", "0ld"])
+            taken = {r for r, _ in files}
+            if extra not in taken and not any(r.startswith(extra + "/") for r in taken) \
+                    and not any(x is not None and x[0] == extra for x in before):
+                before.append((extra, Blob.rand(rng.randrange(50, 99), rng.choice([1, 777, B + 1]))))
+        done += 1
+    out = gen.FileList([x for x in before if x is not None])
+    out.emptydirs = tuple(getattr(files, "emptydirs", ()))
+    if [(r, b.token()) for r, b in out] == [(r, b.token()) for r, b in files]:
+        return None
+    return out
+
+
+# ----------------------------------------------------------------------------- creator objects that are used again
+
+def tokens(files):
+    return [(rel, b.token()) for rel, b in files]
+
+
+def earlier_of(case):
+    """The earlier tree of a recorded case (None when the case has none)."""
+    if case.get("earlier") is None:
+        return None
+    return files_of_case({"files": case["earlier"],
+                          "links": {d + "/": None for d in case.get("earlier_emptydirs", ())}})
+
+
+def rewritten_shapes(pl):
+    """Fixed (label, before, after, single) pairs for 'a creator object wrote a metafile, the
+    payload changed, the object assembled and wrote again': between the two states the set of
+    files longer than one piece changes in every possible way (a long file becomes short, a short
+    one long, a long one gets other bytes of the same length, a long file appears / disappears,
+    none before / none after)."""
+    R = Blob.rand
+    F = gen.FileList
+    out = [
+        ("mixed", F([("a", R(41, pl + 777)), ("d/b", R(42, 300)), ("c", R(43, 3 * pl + 5))]),
+         F([("a", R(41, 200)), ("d/b", R(44, 2 * pl + 1)), ("c", R(45, 3 * pl + 5)), ("new/e", R(46, 5 * pl - 3))]), False),
+        ("none-before", F([("a", R(41, pl)), ("d/b", R(42, 1))]),
+         F([("a", R(41, pl + 1)), ("d/b", R(42, 2 * pl))]), False),
+        ("none-after", F([("a", R(41, 2 * pl - 1)), ("d/b", R(42, 4 * pl))]),
+         F([("a", R(41, pl - 1)), ("d/b", R(42, 0))]), False),
+        ("long-file-gone", F([("a", R(41, 3 * pl)), ("d/b", R(42, 2 * pl + 1)), ("d/c", R(43, 5))]),
+         F([("d/b", R(42, 2 * pl + 1)), ("d/c", R(43, 5))]), False),
+        ("same-lengths-other-bytes", F([("a", R(41, 3 * pl + 1)), ("d/b", R(42, B + 1))]),
+         F([("a", R(47, 3 * pl + 1)), ("d/b", R(48, B + 1))]), False),
+        ("single-shorter", [("f.bin", R(41, 3 * pl + 5))], [("f.bin", R(49, pl - 1))], True),
+        ("single-longer", [("f.bin", R(41, 300))], [("f.bin", R(50, 2 * pl + 1))], True),
+        ("single-other-bytes", [("f.bin", R(41, 4 * pl))], [("f.bin", R(51, 4 * pl))], True),
+    ]
+    return out
+
+
+def other_state(rng, files, pl, single):
+    """Another random state of the payload `files` (plain files only; None otherwise): files
+    with other bytes, other lengths (boundary classes), files that were not there yet, files
+    that are gone since."""
+    if any(getattr(b, "hardlink_of", None) or getattr(b, "symlink_of", None) for _, b in files):
+        return None
+    out = []
+    for rel, blob in files:
+        how = "resized" if single else rng.choice(["same", "other-bytes", "resized", "resized", "absent"])
+        if how == "other-bytes" and len(blob):
+            out.append((rel, Blob.rand(rng.randrange(60, 99), len(blob))))
+        elif how == "resized":
+            size, _ = gen.pick_size(rng, B, pl, allow_empty=not single, big=False)
+            out.append((rel, Blob.rand(rng.randrange(60, 99), size)))
+        elif how != "absent":
+            out.append((rel, blob))
+    if not single and (not out or rng.random() < 0.3):
+        taken = {r for r, _ in files}
+        for extra in ("gone-since.bin", "sub/gone-since.bin"):
+            if extra not in taken and not any(r.startswith(extra + "/") or extra.startswith(r + "/") for r in taken):
+                size, _ = gen.pick_size(rng, B, pl, allow_empty=False, big=False)
+                out.append((extra, Blob.rand(rng.randrange(60, 99), size)))
+                break
+    if not out or tokens(out) == tokens(files):
+        return None
+    if not single and all(len(b) == 0 for _, b in out):
+        out[0] = (out[0][0], Blob.rand(61, B + 1))
+    res = gen.FileList(out)
+    res.emptydirs = tuple(getattr(files, "emptydirs", ()))
+    return res
+
+
+def run_rewritten(run, prefix, before, after, pl, single, tag, kinds, oracle, again=1):
+    """One creator object per kind is built on the payload `before` and writes its metafile; the
+    payload then changes into `after`; every object assembles again (`again` times) and writes
+    again to the same output path.  `oracle(meta, files, pl, single, name)` judges the first
+    metafile against `before` and the second against `after`."""
+    from harness.common import quiet
+    case = {"links": {}, "files": tokens(after), "pl": pl, "single": single, "gen": tag,
+            "earlier": tokens(before), "earlier_emptydirs": list(getattr(before, "emptydirs", ())),
+            "scenario": "written, payload changed, assembled and written again", "again": again}
+    with sandbox(prefix) as box:
+        root, name = materialize(box, before, single)
+        objs = []
+        for kind in kinds:
+            out = os.path.join(box, kind + ".torrent")
+            try:
+                cls, extra = impl.creator(kind)
+                with quiet():
+                    obj = cls(path=root, outfile=out, piece_length=pl, progress=0, **extra)
+                    obj.write()
+                with open(out, "rb") as fd:
+                    raw = fd.read()
+            except Exception as exc:
+                run.fail("impl-vs-spec", dict(case, creator=kind, stage="first"), {"raised": repr(exc)})
+                continue
+            why = oracle(impl.decode(raw), before, pl, single, name)
+            if why:
+                run.fail("impl-vs-spec", dict(case, creator=kind, stage="first"), {"why": why})
+            objs.append((kind, obj, out))
+        if single:
+            with open(root, "wb") as fd:
+                fd.write(after[0][1].bytes())
+        else:
+            change_tree(root, before, after)
+        for kind, obj, out in objs:
+            try:
+                with quiet():
+                    for _ in range(again):
+                        obj.assemble()
+                    obj.write()
+                with open(out, "rb") as fd:
+                    raw = fd.read()
+            except Exception as exc:
+                run.fail("impl-vs-spec", dict(case, creator=kind, stage="second"), {"raised": repr(exc)})
+                continue
+            why = oracle(impl.decode(raw), after, pl, single, name)
+            if why:
+                run.fail("impl-vs-spec", dict(case, creator=kind, stage="second"), {"why": why})
+    return case
